@@ -8,7 +8,7 @@ table = subprocess.check_output([sys.executable, os.path.join(HERE, 'tools', 'se
 TEXT = '''## 9. Seeded changes: which checks catch which
 --------------------------------------------------------------------------------
 
-Six rounds of seeding were run with fresh sub-agents (the fourth and fifth after the coverage audit of every harness, the sixth after the statefulness audit).  Each agent got only the text of one
+Seven rounds of seeding were run with fresh sub-agents (the fourth and fifth after the coverage audit of every harness, the sixth after the statefulness audit).  Each agent got only the text of one
 property and its own scratch git worktree of /repo (nothing from /verif), and had to produce a
 change that breaks the property, keeps the package importable and leaves the repository's test
 results exactly as they were (same 542 passing / 48 failing tests), plus a demonstration program.
@@ -73,7 +73,15 @@ The misses and what was changed (every one is caught now; no check was loosened 
   through one np.concatenate: a list mixing uint64 with signed elements is promoted to float64 and indices above
   2^53 are rounded): mixed-dtype lists only had values below 3*2^32 and values near 2^64 only occurred in homogeneous containers; kind `store` now crosses 16 construction / conversion paths with 14 dtype mixes whose values sit at the top of each member's own range.  C18 (load_genomeset runs create_all: a genome file that lacks a model table, or is
   empty, gets tables created by a plain load): every genome file had the complete schema, where `create_all` issues no DDL; `history-dbschema` now runs loads through five entry points and CLI commands on 37 incomplete or foreign genome files and compares the bytes whatever the outcome of the call.  C19 (re-saving an open HDF5Signatures copies the source
-  group's attributes, marker included, before the datasets): ROUND6_C19.
+  group's attributes, marker included, before the datasets): the source of every interrupted write was a fresh in-memory collection; the death-mode streams now have a SOURCE CONTAINER dimension (views, an open HDF5Signatures with foreign attributes / in a sub-group / under AnnotatedSignatures, user subclasses); the round-7 C19 change (the same idea through a block-copy fast path) was then caught at once.
+
+* Round 7: 14 of 20 caught at once.  C02 (SignatureList caches a concatenated copy that `__setitem__` / `reverse` do not
+  invalidate): ROUND7_C02.  C04 (index-array reads merged into runs by a shift measured against the wrong slot edge:
+  wrong only when neighbouring signature sizes coincide arithmetically): ROUND7_C04.  C06 (contigs above 2^20 nt
+  searched in windows that overlap by k-1 instead of prefix+k-1): ROUND7_C06.  C11 (CSV exporter defaults override
+  the options of a `dialect=`): ROUND7_C11.  C15 (SignatureList memoises a packed copy, rebuilt only when the length
+  changes): ROUND7_C15.  C16 (all-pairs kernel chunked at 1000 columns, mirror copy only for the last chunk: needs
+  `--square` with 1002 or more queries): ROUND7_C16.
 
 **Behaviour-preserving rewrites (the opposite experiment).**  A check that alarms on correct code is as
 useless as one that misses a defect, so after round 3 twenty fresh sub-agents (same isolation: the
